@@ -206,7 +206,8 @@ pub(crate) fn wf_path(v: &PathView) -> bool {
         if i < v.len {
             match v.entries[i] {
                 EntryView::Schedule { preemptions, initial_active, threads, prev, .. } => {
-                    ok = ok && count_of(&threads, ACTIVE) <= 1 && prev == prev_schedule(v, i);
+                    // A6: the u8 preemption counter does not overflow (debug builds would panic)
+                    ok = ok && count_of(&threads, ACTIVE) <= 1 && prev == prev_schedule(v, i) && preemptions < u8::MAX;
                     if let Some(a) = initial_active {
                         ok = ok && (a as usize) < MAX_THREADS;
                     }
@@ -340,3 +341,470 @@ fn c14_path_step() {
 fn c14_path_step_depth4() {
     step_body(4);
 }
+
+// ================================================================================================
+// C13.replay: a stored prefix is replayed verbatim before branching anew
+// ================================================================================================
+
+fn replay_body(l: usize) {
+    let mut p = any_path(l, LMAX);
+    let old = path_view(&p);
+    kani::assume(wf_path(&old) && old.pos < old.len);
+    let at = old.pos;
+    let e = old.entries[at]; // by value
+    let eid = execution::Id::new();
+    match e {
+        EntryView::Schedule { threads, .. } => {
+            let r = p.branch_thread(eid, [Thread::Disabled; 0].into_iter());
+            oblige!("C13.replay.branch_thread_returns_recorded_active_thread", r.map(|i| i.as_usize() as u8) == active_of(&threads));
+        }
+        EntryView::Load { values, pos, .. } => {
+            let r = p.branch_load();
+            let want = values[pos as usize];
+            oblige!("C13.replay.branch_load_returns_recorded_choice", r == want as usize);
+        }
+        EntryView::Spurious { spur, .. } => {
+            let r = p.branch_spurious();
+            oblige!("C13.replay.branch_spurious_returns_recorded_choice", r == spur);
+        }
+    }
+    let new = path_view(&p);
+    oblige!("C13.replay.cursor_advances_by_one", new.pos == at + 1 && new.len == old.len);
+    let mut j = 0;
+    while j < l {
+        oblige!("C13.replay.stored_decisions_untouched", new.entries[j] == old.entries[j]);
+        j += 1;
+    }
+    oblige!("C13.replay.flags_untouched", new.exploring == old.exploring && new.skipping == old.skipping
+        && new.exploring_on_start == old.exploring_on_start && new.bound == old.bound);
+    reach!("c13_replay");
+}
+
+//@ props=C13,C02 tier=quick fns=src/rt/path.rs::Path::branch_thread,src/rt/path.rs::Path::branch_load,src/rt/path.rs::Path::branch_spurious,src/rt/path.rs::Path::is_traversed bounded=path:depth<=3
+#[kani::proof]
+#[kani::unwind(8)]
+fn c13_path_replay() {
+    match kani::any::<u8>() {
+        0 => replay_body(1),
+        1 => replay_body(2),
+        _ => replay_body(3),
+    }
+}
+
+//@ props=C13 tier=quick fns=src/rt/path.rs::Path::branch_load,src/rt/path.rs::Path::branch_spurious,src/rt/path.rs::Path::branch_thread bounded=path:depth=2 expect_panic=expect_failed
+#[kani::proof]
+#[kani::unwind(8)]
+fn c13_path_replay_kind_mismatch_panics() {
+    // a non-deterministic model (the recorded branch kind differs from the one requested) is reported
+    let mut p = any_path(2, LMAX);
+    let old = path_view(&p);
+    kani::assume(wf_path(&old) && old.pos < old.len);
+    let e = old.entries[old.pos];
+    match kani::any::<u8>() {
+        0 => {
+            kani::assume(!matches!(e, EntryView::Load { .. }));
+            let _ = p.branch_load();
+        }
+        1 => {
+            kani::assume(!matches!(e, EntryView::Spurious { .. }));
+            let _ = p.branch_spurious();
+        }
+        _ => {
+            kani::assume(!matches!(e, EntryView::Schedule { .. }));
+            let _ = p.branch_thread(execution::Id::new(), [Thread::Disabled; 0].into_iter());
+        }
+    }
+    must_not_reach!("C13.replay.kind_mismatch_goes_unreported");
+}
+
+// ================================================================================================
+// New branch points: C02.enumerate (push_load), C08 (branch_spurious), C15 / C01 (branch_thread)
+// ================================================================================================
+
+fn new_entry_body(l: usize) {
+    let mut p = any_path(l, LMAX);
+    let old = path_view(&p);
+    kani::assume(wf_path(&old) && old.pos == old.len && old.len < old.cap);
+    match kani::any::<u8>() {
+        0 => {
+            // push_load(seed); branch_load()
+            let n: usize = kani::any();
+            kani::assume(n >= 1 && n <= MAX_ATOMIC_HISTORY);
+            let seed: [u8; MAX_ATOMIC_HISTORY] = kani::any();
+            let mut k = 0;
+            while k < MAX_ATOMIC_HISTORY {
+                kani::assume((seed[k] as usize) < MAX_ATOMIC_HISTORY);
+                k += 1;
+            }
+            p.push_load(&seed[..n]);
+            let mid = path_view(&p);
+            oblige!("C02.enumerate.push_load_records_exactly_the_candidates_in_order", mid.len == old.len + 1 && mid.pos == old.pos && match mid.entries[l] {
+                EntryView::Load { values, pos, len, exploring } => {
+                    let mut ok = pos == 0 && len as usize == n && exploring == old.exploring;
+                    let mut k = 0;
+                    while k < MAX_ATOMIC_HISTORY {
+                        ok = ok && (k >= n || values[k] == seed[k]);
+                        k += 1;
+                    }
+                    ok
+                }
+                _ => false,
+            });
+            let r = p.branch_load();
+            oblige!("C02.enumerate.first_iteration_reads_first_candidate", r == seed[0] as usize && path_view(&p).pos == old.pos + 1);
+            oblige!("C02.enumerate.preserves_wf_path", wf_path(&path_view(&p)));
+        }
+        1 => {
+            let r = p.branch_spurious();
+            let new = path_view(&p);
+            oblige!("C08.spurious.new_branch_starts_non_spurious", !r && new.len == old.len + 1 && new.pos == old.pos + 1
+                && new.entries[l] == (EntryView::Spurious { spur: false, exploring: old.exploring }));
+        }
+        _ => {
+            // branch_thread with a seed of 3 thread statuses as `schedule` produces them:
+            // at most one Active, the rest Disabled / Skip / Yield
+            let s: [u8; 3] = kani::any();
+            kani::assume(s[0] <= ACTIVE && s[1] <= ACTIVE && s[2] <= ACTIVE && s[0] != PENDING && s[1] != PENDING && s[2] != PENDING);
+            let nact = (s[0] == ACTIVE) as u8 + (s[1] == ACTIVE) as u8 + (s[2] == ACTIVE) as u8;
+            kani::assume(nact <= 1);
+            // C15 precondition (what `schedule` guarantees through wf_path): the previous schedule can take one more preemption-free step
+            let prev = prev_schedule(&old, l);
+            let prev_e = match prev { Some(i) => Some(old.entries[i]), None => None };
+            if let (Some(b), Some(pe)) = (old.bound, prev_e) {
+                kani::assume(spec_preemptions(&pe) <= b);
+            }
+            if let Some(pe) = prev_e {
+                kani::assume(spec_preemptions(&pe) < u8::MAX); // A6
+            }
+            let eid = execution::Id::new();
+            let r = p.branch_thread(eid, [th_from(s[0]), th_from(s[1]), th_from(s[2])].into_iter());
+            let new = path_view(&p);
+            let mut want = [DISABLED; MAX_THREADS];
+            want[0] = s[0];
+            want[1] = s[1];
+            want[2] = s[2];
+            if nact == 0 {
+                // no runnable thread: a yielded thread is re-activated (C18: no false deadlock)
+                if let Some(y) = first_of(&want, YIELD) {
+                    want[y] = ACTIVE;
+                }
+            }
+            let act = active_of(&want);
+            let want_initial = match prev_e {
+                Some(EntryView::Schedule { threads, .. }) => if act == active_of(&threads) { act } else { None },
+                _ => act,
+            };
+            let want_preemptions = match prev_e { Some(pe) => spec_preemptions(&pe), None => 0 };
+            oblige!("C01.branch_thread.records_seed_and_returns_its_active_thread", r.map(|i| i.as_usize() as u8) == act
+                && new.len == old.len + 1 && new.pos == old.pos + 1);
+            oblige!("C15.branch_thread.preemption_accounting", new.entries[l] == (EntryView::Schedule {
+                preemptions: want_preemptions, initial_active: want_initial, threads: want, prev, exploring: old.exploring }));
+            oblige!("C15.branch_thread.preserves_wf_path", wf_path(&new));
+        }
+    }
+    let new = path_view(&p);
+    let mut j = 0;
+    while j < l {
+        oblige!("C14.new_branch.earlier_decisions_untouched", new.entries[j] == old.entries[j]);
+        j += 1;
+    }
+    reach!("c_path_new_entry");
+}
+
+//@ props=C02,C08,C15,C01,C14,C19 tier=quick fns=src/rt/path.rs::Path::push_load,src/rt/path.rs::Path::branch_load,src/rt/path.rs::Path::branch_spurious,src/rt/path.rs::Path::branch_thread,src/rt/path.rs::Path::last_schedule,src/rt/path.rs::Schedule::preemptions,src/rt/path.rs::Schedule::active_thread_index bounded=path:depth<=2,seed_threads:3
+#[kani::proof]
+#[kani::unwind(9)]
+fn c_path_new_branch_points() {
+    match kani::any::<u8>() {
+        0 => new_entry_body(0),
+        1 => new_entry_body(1),
+        _ => new_entry_body(2),
+    }
+}
+
+//@ props=C18,C19 tier=quick fns=src/rt/path.rs::assert_path_len,src/rt/path.rs::Path::push_load,src/rt/path.rs::Path::branch_spurious,src/rt/path.rs::Path::branch_thread bounded=path:depth=2 expect_panic=Model_exceeded_maximum_number_of_branches
+#[kani::proof]
+#[kani::unwind(9)]
+fn c19_path_branch_limit_panics() {
+    // len == capacity (max_branches reached) and a NEW branch point is needed => documented panic
+    let mut p = any_path(2, 2);
+    let old = path_view(&p);
+    kani::assume(wf_path(&old) && old.pos == old.len && old.cap == 2);
+    match kani::any::<u8>() {
+        0 => p.push_load(&[0u8][..]),
+        1 => {
+            let _ = p.branch_spurious();
+        }
+        _ => {
+            let _ = p.branch_thread(execution::Id::new(), [Thread::Active].into_iter());
+        }
+    }
+    must_not_reach!("C19.max_branches.exceeded_without_the_documented_panic");
+}
+
+// ================================================================================================
+// C19: exploration-control flag machine
+// ================================================================================================
+
+//@ props=C19 tier=quick fns=src/rt/path.rs::Path::explore_state,src/rt/path.rs::Path::critical,src/rt/path.rs::Path::skip_branch,src/rt/path.rs::Path::new bounded=path:depth=1
+#[kani::proof]
+#[kani::unwind(8)]
+fn c19_path_flags() {
+    let mut p = any_path(1, LMAX);
+    let old = path_view(&p);
+    match kani::any::<u8>() {
+        0 => {
+            kani::assume(old.skipping || !old.exploring);
+            p.explore_state();
+            let n = path_view(&p);
+            oblige!("C19.explore.enables_exploring_unless_skipping", n.skipping == old.skipping && n.exploring == (if old.skipping { old.exploring } else { true }));
+        }
+        1 => {
+            kani::assume(old.skipping || old.exploring);
+            p.critical();
+            let n = path_view(&p);
+            oblige!("C19.stop_exploring.disables_exploring_unless_skipping", n.skipping == old.skipping && n.exploring == (if old.skipping { old.exploring } else { false }));
+        }
+        _ => {
+            p.skip_branch();
+            let n = path_view(&p);
+            oblige!("C19.skip_branch.disables_exploring_for_good", n.skipping && !n.exploring);
+            // ... and a later explore() is a no-op
+            p.explore_state();
+            let n2 = path_view(&p);
+            oblige!("C19.skip_branch.explore_cannot_reenable", n2.skipping && !n2.exploring);
+        }
+    }
+    let n = path_view(&p);
+    oblige!("C19.flags.touch_nothing_else", n.pos == old.pos && n.len == old.len && n.entries[0] == old.entries[0]
+        && n.exploring_on_start == old.exploring_on_start && n.bound == old.bound);
+    let (mb, pb, ex): (usize, Option<u8>, bool) = (kani::any(), kani::any(), kani::any());
+    kani::assume(mb <= 4);
+    let fresh = ManuallyDrop::new(Path::new(mb, pb, ex));
+    let f = path_view(&fresh);
+    oblige!("C19.new.configuration_recorded", f.pos == 0 && f.len == 0 && f.cap >= mb && f.bound == pb && f.exploring == ex && f.exploring_on_start == ex && !f.skipping);
+    reach!("c19_path_flags");
+}
+
+// ================================================================================================
+// C01.path.backtrack / C15 / C19.frozen: backtrack-point insertion
+// ================================================================================================
+
+/// Spec of `Schedule::backtrack` on a view (pre: it is a Schedule entry with `exploring`).
+pub(crate) fn spec_sched_backtrack(e: &EntryView, t: usize, bound: Option<u8>) -> EntryView {
+    match e {
+        EntryView::Schedule { preemptions, initial_active, threads, prev, exploring } => {
+            let mut th = *threads;
+            let refused = match bound { Some(b) => *preemptions == b, None => false };
+            if !refused && t < MAX_THREADS {
+                if th[t] != DISABLED {
+                    if th[t] == SKIP {
+                        th[t] = PENDING;
+                    }
+                } else {
+                    let mut i = 0;
+                    while i < MAX_THREADS {
+                        if th[i] == SKIP {
+                            th[i] = PENDING;
+                        }
+                        i += 1;
+                    }
+                }
+            }
+            EntryView::Schedule { preemptions: *preemptions, initial_active: *initial_active, threads: th, prev: *prev, exploring: *exploring }
+        }
+        other => *other,
+    }
+}
+
+fn sched_active(e: &EntryView) -> Option<u8> {
+    match e {
+        EntryView::Schedule { threads, .. } => active_of(threads),
+        _ => None,
+    }
+}
+fn sched_prev(e: &EntryView) -> Option<usize> {
+    match e {
+        EntryView::Schedule { prev, .. } => *prev,
+        _ => None,
+    }
+}
+
+/// Element `idx` of the entry array, selected with a concrete loop (no symbolic-index references).
+fn entry_at(es: &[EntryView; LMAX], idx: usize) -> EntryView {
+    let mut r = es[0];
+    let mut j = 0;
+    while j < LMAX {
+        if j == idx {
+            r = es[j];
+        }
+        j += 1;
+    }
+    r
+}
+
+/// Spec of `Path::backtrack(point, t)`: which entries get `Schedule::backtrack` applied.
+pub(crate) fn spec_backtrack_marks(v: &PathView, point: usize) -> [bool; LMAX] {
+    let mut mark = [false; LMAX];
+    // nearest exploring Schedule at or below `point`
+    let mut target: Option<usize> = None;
+    let mut i = 0;
+    while i < LMAX {
+        if i <= point && i < v.len && matches!(v.entries[i], EntryView::Schedule { exploring: true, .. }) {
+            target = Some(i);
+        }
+        i += 1;
+    }
+    if let Some(tg) = target {
+        let mut j = 0;
+        while j < LMAX {
+            if j == tg {
+                mark[j] = true;
+            }
+            j += 1;
+        }
+        if v.bound.is_some() {
+            // conservative extra point (preemption-bounded DPOR): walk the prev chain
+            let mut cur = sched_prev(&entry_at(&v.entries, tg));
+            let mut fuel = LMAX;
+            while fuel > 0 {
+                fuel -= 1;
+                if let Some(c) = cur {
+                    let ce = entry_at(&v.entries, c);
+                    let mut hit = false;
+                    match sched_prev(&ce) {
+                        Some(pr) => {
+                            let pe = entry_at(&v.entries, pr);
+                            if sched_active(&ce) != sched_active(&pe) && is_exploring(&ce) {
+                                hit = true;
+                                cur = None;
+                            } else {
+                                cur = Some(pr);
+                            }
+                        }
+                        None => {
+                            hit = is_exploring(&ce);
+                            cur = None;
+                        }
+                    }
+                    if hit {
+                        let mut j = 0;
+                        while j < LMAX {
+                            if j == c {
+                                mark[j] = true;
+                            }
+                            j += 1;
+                        }
+                    }
+                }
+            }
+        }
+    }
+    mark
+}
+
+impl Schedule {
+    /// Contract model of `active_thread_index` (proved equal to the real function: c15_schedule_preemptions).
+    pub(crate) fn active_thread_index_model(&self) -> Option<u8> {
+        let mut r = None;
+        let mut i = MAX_THREADS;
+        while i > 0 {
+            i -= 1;
+            if self.threads[i] == Thread::Active {
+                r = Some(i as u8);
+            }
+        }
+        r
+    }
+}
+
+/// `point` (the path position of an earlier access, passed by `schedule`) is path-concrete: the
+/// walk-down loop of `Path::backtrack` indexes the branch vector with it.
+fn backtrack_body(l: usize, point: usize) {
+    let mut p = any_path(l, LMAX);
+    let old = path_view(&p);
+    kani::assume(wf_path(&old));
+    let t: usize = kani::any();
+    kani::assume(t < MAX_THREADS);
+    let marks = spec_backtrack_marks(&old, point);
+    p.backtrack(point, thread::Id::new(execution::Id::new(), t));
+    let new = path_view(&p);
+    let mut j = 0;
+    while j < l {
+        let want_j = if marks[j] { spec_sched_backtrack(&old.entries[j], t, old.bound) } else { old.entries[j] };
+        oblige!("C01.path.backtrack.marks_exactly_the_specified_backtrack_points", new.entries[j] == want_j);
+        // C19.frozen: an entry recorded with exploration disabled is never touched
+        oblige!("C19.frozen.backtrack_never_marks_a_non_exploring_entry", is_exploring(&old.entries[j]) || new.entries[j] == old.entries[j]);
+        // only Skip -> Pending transitions
+        if let (EntryView::Schedule { threads: a, .. }, EntryView::Schedule { threads: b, .. }) = (old.entries[j], new.entries[j]) {
+            let mut k = 0;
+            while k < MAX_THREADS {
+                oblige!("C14.backtrack.only_skip_to_pending_transitions", a[k] == b[k] || (a[k] == SKIP && b[k] == PENDING));
+                k += 1;
+            }
+        }
+        j += 1;
+    }
+    oblige!("C01.path.backtrack.frame", new.len == old.len && new.pos == old.pos && new.exploring == old.exploring && new.skipping == old.skipping);
+    oblige!("C15.backtrack.preserves_wf_path_with_bound", wf_path(&new));
+    reach!("c01_path_backtrack");
+}
+
+//@ props=C01,C15,C19,C14 tier=quick fns=src/rt/path.rs::Path::backtrack,src/rt/path.rs::Schedule::backtrack,src/rt/path.rs::Thread::explore bounded=path:depth=1
+#[kani::proof]
+#[kani::unwind(8)]
+#[kani::stub(crate::rt::path::Schedule::active_thread_index, crate::rt::path::Schedule::active_thread_index_model)]
+fn c01_path_backtrack() {
+    backtrack_body(1, 0);
+}
+
+//@ props=C01,C15,C19,C14 tier=quick fns=src/rt/path.rs::Path::backtrack,src/rt/path.rs::Schedule::backtrack bounded=path:depth=2 models=Schedule::active_thread_index=c15_schedule_preemptions
+#[kani::proof]
+#[kani::unwind(8)]
+#[kani::stub(crate::rt::path::Schedule::active_thread_index, crate::rt::path::Schedule::active_thread_index_model)]
+fn c01_path_backtrack_d2() {
+    if kani::any() { backtrack_body(2, 0) } else { backtrack_body(2, 1) }
+}
+
+//@ props=C01,C15,C19,C14 tier=thorough timeout=3000 fns=src/rt/path.rs::Path::backtrack,src/rt/path.rs::Schedule::backtrack bounded=path:depth=3 models=Schedule::active_thread_index=c15_schedule_preemptions
+#[kani::proof]
+#[kani::unwind(8)]
+#[kani::stub(crate::rt::path::Schedule::active_thread_index, crate::rt::path::Schedule::active_thread_index_model)]
+fn c01_path_backtrack_d3() {
+    match kani::any::<u8>() {
+        0 => backtrack_body(3, 0),
+        1 => backtrack_body(3, 1),
+        _ => backtrack_body(3, 2),
+    }
+}
+
+//@ props=C01,C15,C19 tier=thorough timeout=3000 fns=src/rt/path.rs::Path::backtrack,src/rt/path.rs::Schedule::backtrack bounded=path:depth=4
+#[kani::proof]
+#[kani::unwind(8)]
+#[kani::stub(crate::rt::path::Schedule::active_thread_index, crate::rt::path::Schedule::active_thread_index_model)]
+fn c01_path_backtrack_depth4() {
+    match kani::any::<u8>() {
+        0 => backtrack_body(4, 0),
+        1 => backtrack_body(4, 1),
+        2 => backtrack_body(4, 2),
+        _ => backtrack_body(4, 3),
+    }
+}
+
+//@ props=C15 tier=quick fns=src/rt/path.rs::Schedule::preemptions,src/rt/path.rs::Schedule::active_thread_index
+#[kani::proof]
+#[kani::unwind(8)]
+fn c15_schedule_preemptions() {
+    let e = any_entry();
+    if let Entry::Schedule(s) = &e {
+        let v = entry_view(&e);
+        kani::assume(s.preemptions < u8::MAX);
+        oblige!("C15.preemptions.counts_a_switch_away_from_a_thread_that_could_continue", s.preemptions() == spec_preemptions(&v));
+        if let EntryView::Schedule { threads, .. } = v {
+            oblige!("C15.active_thread_index.first_active", s.active_thread_index() == active_of(&threads));
+        }
+        reach!("c15_schedule_preemptions");
+    }
+}
+
+
